@@ -295,6 +295,37 @@ pub fn settle_and_check(s: &mut Sim) -> Result<(String, u32), (String, String)> 
     Ok((cls.to_string(), idle_at))
 }
 
+/// top-level cells of a `(deflayer name c1 c2 c3 ...)` line (balanced parentheses)
+fn cells_of_first_layer(line: &str) -> Vec<String> {
+    let inner = line.trim().trim_start_matches("(deflayer").trim_end_matches(')');
+    let mut cells = vec![];
+    let mut depth = 0i32;
+    let mut cur = String::new();
+    for ch in inner.chars() {
+        match ch {
+            '(' => {
+                depth += 1;
+                cur.push(ch);
+            }
+            ')' => {
+                depth -= 1;
+                cur.push(ch);
+            }
+            c if c.is_whitespace() && depth == 0 => {
+                if !cur.is_empty() {
+                    cells.push(std::mem::take(&mut cur));
+                }
+            }
+            c => cur.push(c),
+        }
+    }
+    if !cur.is_empty() {
+        cells.push(cur);
+    }
+    // drop the layer name
+    cells.into_iter().skip(1).collect()
+}
+
 /// Executes one history step by step. Also observes whether the 32-slot input queue was full when
 /// a further input event arrived (the overflow path of `Layout::event`), which classifies the
 /// execution for the known finding on queue overflow.
@@ -335,6 +366,21 @@ fn check(cfg: &str, hist: &[Ev], first_new: usize, st: &mut Stats) -> Option<Vio
         }
         Err((sig, what)) => {
             let sig = if overflowed { format!("queue-overflow::{sig}") } else { sig };
+            // discriminator for a known finding: a recorded dynamic macro that contains the press of
+            // the key which plays that same macro (the recursion guard only works while the replay
+            // that pushed the press is still running)
+            let sig = if sig == "never-idle" && {
+                let d = s.digest_string();
+                let play_key = ["a", "b", "c"].iter().zip(cfg.lines().find(|l| l.starts_with("(deflayer")).map(cells_of_first_layer).unwrap_or_default()).find(|(_, cell)| cell.contains("dynamic-macro-play")).map(|(k, _)| k.to_uppercase());
+                match (play_key, d.find("dm=["), d.find("dmp=")) {
+                    (Some(k), Some(i), Some(j)) if j > i => d[i..j].contains(&format!("Press((KEY_{k},")),
+                    _ => false,
+                }
+            } {
+                "never-idle/macro-contains-its-own-play-key".to_string()
+            } else {
+                sig
+            };
             let hs = crate::sim::hist_to_string(hist);
             let hs_short: String = hs.chars().take(160).collect();
             Some(mk_violation("C01", sig, format!("{what} after [{hs_short}{}]", if hs.len() > 160 { " ..." } else { "" }), "history", cfg, hist, json!({"queue_overflowed": overflowed})))
